@@ -12,9 +12,10 @@ META = {
                "thorough": "2 threads x 2 creations each"},
     "outside_claim": ["weak-memory behaviours beyond sequential consistency, and what undefined behaviour permits once a race exists (the check finds the race)", "more than two threads",
                       "'every thread's treap results equal those of the same operations run alone' follows from C03 (results do not depend on priorities) and is not re-checked here",
-                      "synchronisation constructs other than thread_local!/Cell (Mutex, atomics, ...) are not modelled: such code is reported inconclusive, never as a violation or a pass"],
+                      "modelled synchronisation: thread_local!/Cell, a static std::sync::Mutex around the generator, scalar static atomics (load/store/swap/fetch_add/fetch_sub/compare_exchange, explored as SC); anything else (RwLock, Condvar, arrays of atomics, fetch_update closures, ...) is reported inconclusive, never as a violation or a pass"],
     "stubs_and_assumes": ["process-wide memory = statics reached through `const {alloc..}`; thread_local! = one instance per interpreter thread created by the dumped initialiser; Cell::get/set = plain thread-private accesses",
-                          "threads are advanced by re-execution with a log of the values they have read (deterministic given that log)"],
+                          "threads are advanced by re-execution with a log of the values they have read (deterministic given that log)",
+                          "Mutex::lock = blocking acquire (never poisoned), guard drop = release; atomics = one indivisible access each; the initial generator state inside a Mutex/static is symbolic, other statics start from their dumped bytes"],
     "assumptions": ["rustc's MIR dump is the semantics of the compiled code", "a data race = two adjacent conflicting unsynchronised accesses in some sequentially consistent execution"],
 }
 
@@ -22,12 +23,26 @@ META = {
 def miri_replay():
     env = dict(os.environ); env["CARGO_NET_OFFLINE"] = "true"; env["MIRIFLAGS"] = "-Zmiri-disable-isolation"
     try:
-        p = subprocess.run(["cargo", "+nightly", "miri", "test", "--offline", "--target-dir", os.path.join(BUILD, "miri")], cwd=_k.crate_dir("treapmiri"), env=env,
+        p = subprocess.run(["cargo", "+nightly", "miri", "test", "--offline", "--test", "two_threads", "--target-dir", os.path.join(BUILD, "miri")], cwd=_k.crate_dir("treapmiri"), env=env,
                            stdout=subprocess.PIPE, stderr=subprocess.STDOUT, text=True, timeout=900)
     except subprocess.TimeoutExpired:
         return None, "miri timed out"
     lines = [l for l in p.stdout.splitlines() if "Data race" in l or "Undefined Behavior" in l or "test result" in l or "panicked" in l]
     bad = any("Data race" in l or "Undefined Behavior" in l or "FAILED" in l or "panicked" in l for l in lines)
+    ok = any("test result: ok. 1 passed" in l for l in lines)
+    return (True if bad else (False if ok else None)), " | ".join(lines)[:600]
+
+
+def native_stress():
+    """outcome violations without a memory-level race: native multi-thread stress run of the real crate (release profile)"""
+    env = dict(os.environ); env["CARGO_NET_OFFLINE"] = "true"
+    try:
+        p = subprocess.run(["cargo", "test", "--release", "--offline", "--test", "streams", "--target-dir", os.path.join(BUILD, "native")], cwd=_k.crate_dir("treapmiri"), env=env,
+                           stdout=subprocess.PIPE, stderr=subprocess.STDOUT, text=True, timeout=900)
+    except subprocess.TimeoutExpired:
+        return None, "native stress run timed out"
+    lines = [l for l in p.stdout.splitlines() if "test result" in l or "panicked" in l or "handed out" in l or l.startswith("error")]
+    bad = any("panicked" in l or "FAILED" in l for l in lines)
     ok = any("test result: ok. 1 passed" in l for l in lines)
     return (True if bad else (False if ok else None)), " | ".join(lines)[:600]
 
@@ -58,14 +73,26 @@ def run_engine(tier, seed, known, only):
     try:
         # ---- self-test (vacuity guard): the engine must find the race and the duplicated draw in the recorded MIR of the
         # unsynchronised `static mut` version
-        Pf = ConcProgram(open(os.path.join(fx, "treap_racy.mir")).read(), open(os.path.join(fx, "rand_for_racy.mir")).read())
-        sch, race, outcome, nq = analyse(Pf, 1, stop_at_first=False)
-        ok = race is not None and outcome is not None
-        out["records"].append({"name": "self-test on the recorded racy MIR", "engine": "mirsym", "status": "FAIL" if ok else "VACUOUS", "ok": ok, "expect": "fail", "queries": nq + len(sch),
-                               "desc": "deliberately racy fixture: race and non-sequential outcome must be found (%d schedules)" % len(sch), "bounds": "k=1", "time": time.time() - t0})
-        if not ok:
-            out["inconclusive"].append({"obligation": "self-test", "reason": "engine did not find the race in the racy fixture (vacuous)"})
-            return out
+        rand_fx = open(os.path.join(fx, "rand_for_racy.mir")).read()
+        # (fixture, must find a data race, must find a non-sequential outcome)
+        for name, want_race, want_outcome, what in (("treap_racy.mir", True, True, "unsynchronised `static mut` generator"),
+                                                    ("treap_mutex_split.mir", False, True, "Mutex released between reading and writing back the generator"),
+                                                    ("treap_atomic_lost.mir", False, True, "atomic load .. store (lost update)"),
+                                                    ("treap_mutex_ok.mir", False, False, "generator stepped under one Mutex critical section"),
+                                                    ("treap_cas_ok.mir", False, False, "compare_exchange retry loop")):
+            t1 = time.time()
+            Pf = ConcProgram(open(os.path.join(fx, name)).read(), rand_fx)
+            sch, race, outcome, nq = analyse(Pf, 1, stop_at_first=False)
+            ok = (race is not None) == want_race and (outcome is not None) == want_outcome
+            bad_expected = want_race or want_outcome
+            out["records"].append({"name": "self-test on recorded MIR: " + what, "engine": "mirsym", "status": ("FAIL" if bad_expected else "PASS") if ok else "VACUOUS", "ok": ok,
+                                   "expect": "fail" if bad_expected else "pass", "queries": nq + len(sch),
+                                   "desc": "recorded fixture %s: race %s, non-sequential outcome %s (%d schedules)" % (name, "must be found" if want_race else "must not be reported",
+                                                                                                                   "must be found" if want_outcome else "must not be reported", len(sch)),
+                                   "bounds": "k=1", "time": time.time() - t1})
+            if not ok:
+                out["inconclusive"].append({"obligation": "self-test " + name, "reason": "engine verdict on the recorded fixture is not the expected one (race=%s outcome=%s)" % (race is not None, outcome is not None)})
+                return out
         tt = core.dump_mir(_k.REPO, "rlib/treap", os.path.join(BUILD, "mir"), False, "rel")
         rt = core.dump_mir(_k.REPO, "rlib/rand", os.path.join(BUILD, "mir"), False, "rel")
         for k in ((1,) if tier == "quick" else (1, 2)):
@@ -80,11 +107,11 @@ def run_engine(tier, seed, known, only):
                 out["inconclusive"].append({"obligation": rec["name"], "reason": "no priority was drawn (vacuous)"})
             if race or outcome:
                 rec.update(status="FAIL", ok=False, violation={"race": race, "outcome": outcome})
-                rep, text = miri_replay()
+                rep, text = miri_replay() if race else native_stress()
                 rdir = os.path.join(VERIF, "replays", "C17"); os.makedirs(rdir, exist_ok=True)
                 path = os.path.join(rdir, "conc_k%d.json" % k)
-                json.dump({"property": "C17", "race": race, "outcome": outcome, "native": text, "how": "cd harness/treapmiri && cargo +nightly miri test --offline"}, open(path, "w"), indent=1, default=str)
-                print("  [C17] native (Miri): %s" % text[:300], flush=True)
+                json.dump({"property": "C17", "race": race, "outcome": outcome, "native": text, "how": "cd harness/treapmiri && cargo +nightly miri test --offline --test two_threads" if race else "cd harness/treapmiri && cargo test --release --offline --test streams"}, open(path, "w"), indent=1, default=str)
+                print("  [C17] native (%s): %s" % ("Miri" if race else "4-thread stress run", text[:300]), flush=True)
                 if rep:
                     from vp.check import match_known
                     hits, rest = match_known("C17", "static-mut-rng-race", ["race" if race else "outcome"], known)
@@ -106,7 +133,8 @@ def run_engine(tier, seed, known, only):
 
 
 def replay(path):
-    rep, text = miri_replay()
+    d = json.load(open(path))
+    rep, text = miri_replay() if d.get("race") else native_stress()
     print(text)
     print("REPRODUCED" if rep else "not reproduced")
     return 1 if rep else 0
